@@ -242,6 +242,7 @@ type FuncCtx struct {
 	pendingSets   []int
 	wfSeen        map[string]bool
 	schemaUses    int
+	assumedPosts  map[string]bool
 	ifaceCons     []*Contract
 	siteResults   map[string]TV
 	callSites     map[string]int
@@ -700,7 +701,7 @@ func (e *Engine) verifyFunction(fn *ssa.Function, con *Contract) (q *Query, fc *
 		reach: map[*ssa.BasicBlock]string{}, stOut: map[*ssa.BasicBlock]*State{}, edge: map[[2]int]string{},
 		closures: map[ssa.Value]*ssa.MakeClosure{}, ordinals: map[string]int{}, paramTV: map[string]TV{},
 		itercnt: map[*ssa.BasicBlock]string{}, fnName: fn.String(), varHead: map[*ssa.BasicBlock]string{},
-		usedTrusted: map[string]bool{}, usedContracts: map[string]bool{}, inlined: map[string]bool{}, atSites: map[string]int{}, atMatched: map[int]int{}, siteResults: map[string]TV{}, callSites: map[string]int{}}
+		usedTrusted: map[string]bool{}, usedContracts: map[string]bool{}, inlined: map[string]bool{}, assumedPosts: map[string]bool{}, atSites: map[string]int{}, atMatched: map[int]int{}, siteResults: map[string]TV{}, callSites: map[string]int{}}
 	fc.stack = []*ssa.Function{fn}
 	if con != nil {
 		fc.checked = con.Checked
@@ -762,6 +763,13 @@ func (e *Engine) verifyFunction(fn *ssa.Function, con *Contract) (q *Query, fc *
 		for i, c := range con.Requires {
 			var t string
 			if err := catchTr(fmt.Sprintf("%s requires %d", con.Key, i), func() { t = env.trBool(c.E) }); err != nil {
+				return nil, nil, err
+			}
+			q.assume(t)
+		}
+		for i, c := range con.Invariants {
+			var t string
+			if err := catchTr(fmt.Sprintf("%s invariant %d", con.Key, i), func() { t = env.trBool(c.E) }); err != nil {
 				return nil, nil, err
 			}
 			q.assume(t)
@@ -1421,6 +1429,14 @@ func (fc *FuncCtx) finish() {
 		}
 		q.assume(fmt.Sprintf("(=> %s %s)", exit, t))
 		fc.schemaUses++
+	}
+	for i, c := range con.Invariants {
+		var t string
+		if err := catchTr(fmt.Sprintf("%s invariant %d", con.Key, i), func() { t = env.trBool(c.E) }); err != nil {
+			panic(trErr(err.Error()))
+		}
+		o := fc.oblige("closure-inv", clauseLabel(c, i), exit, t, "invariant of the function literal is re-established: "+c.Src, c.Tags)
+		o.Pos = fc.posOfFn()
 	}
 	for i, c := range con.Ensures {
 		var t string
